@@ -33,6 +33,9 @@ type Controller struct {
 
 	evtC  <-chan config.Event
 	procs map[string]proc.Proc
+	// pendings holds the endpoints of the services whose processor could
+	// not be created yet (invalid config). It's only used by the event loop.
+	pendings map[string][]*service.Endpoint
 
 	startOnce sync.Once
 	quit      chan struct{}
@@ -43,8 +46,9 @@ type Controller struct {
 // New creates a controller with given event channel.
 func New(evtC <-chan config.Event) (*Controller, error) {
 	ctl := &Controller{
-		evtC:  evtC,
-		procs: make(map[string]proc.Proc),
+		evtC:     evtC,
+		procs:    make(map[string]proc.Proc),
+		pendings: make(map[string][]*service.Endpoint),
 		quit:  make(chan struct{}),
 		done:  make(chan struct{}),
 	}
@@ -101,10 +105,22 @@ func (c *Controller) handleSvcAdd(svcName string, cfg *service.Config, endpoints
 	if _, ok := c.getProc(svcName); ok {
 		return
 	}
-	c.tryEnsureProc(svcName, cfg, endpointsToHosts(endpoints))
+	c.ensureProcOrPend(svcName, cfg, endpoints)
+}
+
+// ensureProcOrPend creates the processor, or remembers the endpoints of the
+// service when that is not possible yet, so that the processor could be
+// created as soon as a usable config arrives.
+func (c *Controller) ensureProcOrPend(svcName string, cfg *service.Config, endpoints []*service.Endpoint) {
+	if p := c.tryEnsureProc(svcName, cfg, endpointsToHosts(endpoints)); p != nil || svcName == "" {
+		delete(c.pendings, svcName)
+		return
+	}
+	c.pendings[svcName] = endpoints
 }
 
 func (c *Controller) handleSvcDel(svcName string) {
+	delete(c.pendings, svcName)
 	if p, ok := c.getProc(svcName); ok {
 		p.Stop()
 		c.removeProc(p)
@@ -173,6 +189,10 @@ func (c *Controller) handleSvcEndpointsAdd(svcName string, endpoints []*service.
 	procName := svcName
 	p, ok := c.getProc(procName)
 	if !ok {
+		if pending, ok := c.pendings[svcName]; ok {
+			c.pendings[svcName] = append(pending[:len(pending):len(pending)], endpoints...)
+			return
+		}
 		logger.Warnf("failed to get proc of service when add endpoints: %s", svcName)
 		return
 	}
@@ -189,6 +209,23 @@ func (c *Controller) handleSvcEndpointsRemove(svcName string, endpoints []*servi
 	procName := svcName
 	p, ok := c.getProc(procName)
 	if !ok {
+		if pending, ok := c.pendings[svcName]; ok {
+			left := make([]*service.Endpoint, 0, len(pending))
+			for _, endpoint := range pending {
+				removed := false
+				for _, r := range endpoints {
+					if endpoint.Address.Equal(r.Address) {
+						removed = true
+						break
+					}
+				}
+				if !removed {
+					left = append(left, endpoint)
+				}
+			}
+			c.pendings[svcName] = left
+			return
+		}
 		logger.Warnf("failed to get proc of service when remove endpoints: %s", svcName)
 		return
 	}
@@ -218,6 +255,11 @@ func (c *Controller) handleSvcEndpointsReplace(svcName string, endpoints []*serv
 func (c *Controller) handleSvcConfigUpdate(svcName string, newCfg *service.Config) {
 	proc, ok := c.getProc(svcName)
 	if !ok {
+		if pending, ok := c.pendings[svcName]; ok {
+			// the earlier config was refused, maybe this one is usable.
+			c.ensureProcOrPend(svcName, newCfg, pending)
+			return
+		}
 		logger.Warnf("failed to get proc of service when update config: %s", svcName)
 		return
 	}
